@@ -278,7 +278,7 @@ def run_c18(ctx, replay_path=None):
             res.extra["exhaustive_small_scope"] = "all 6^6 op sequences over {push 12, push 9, push 17(short PDU), pop, alloc 13, more} on size 29/default and size 30/nRF-encrypted"
     impl, model, dis = ctx.run_pair(sessions)
     for d in dis:
-        ops = ctx.shrink_disagreement(sessions[d["session"]]) if len(res.disagreements) < 2 else sessions[d["session"]]
+        ops = ctx.shrink_disagreement(sessions[d["session"]]) if len(res.disagreements) < 1 else sessions[d["session"]]
         res.disagreements.append(dict(d, ops=ops))
     seen_keys = set()
     for ops, r in zip(sessions, impl):
@@ -329,14 +329,14 @@ def run_c18(ctx, replay_path=None):
         if m:
             k, key, what = m
             fops = ops[:k + 1]
-            if key not in seen_keys and len(seen_keys) < 4:
+            if key not in seen_keys and len(seen_keys) < 3:
                 seen_keys.add(key)
 
                 def fails(cand, key=key):
                     rr = ctx.run_impl([cand])[0]
                     mm = monitor(cand, rr["out"])
                     return bool(mm and mm[1] == key)
-                fops = ctx.shrink(fops, fails, budget=120)
+                fops = ctx.shrink(fops, fails, budget=60)
                 rr = ctx.run_impl([fops])[0]
                 mm = monitor(fops, rr["out"])
                 if mm:
@@ -354,7 +354,8 @@ PROPS = {
                   "BluetoeModel.PduRing.more_refines",
                   "BluetoeModel.PduRing.live_disjoint", "BluetoeModel.PduRing.live_in_bounds",
                   "BluetoeModel.PduRing.writes_in_bounds", "BluetoeModel.PduRing.frame_outside_buffer_and_mark",
-                  "BluetoeModel.PduRing.alloc_fails_iff", "BluetoeModel.PduRing.alloc_region_free",
+                  "BluetoeModel.PduRing.alloc_fails_iff", "BluetoeModel.PduRing.alloc_position",
+                  "BluetoeModel.PduRing.alloc_region_free", "BluetoeModel.PduRing.pop_pre_iff",
                   "BluetoeModel.PduRing.rep_reset"],
         run=run_c18,
         level="proof",
